@@ -265,6 +265,7 @@ def explore(fn, max_paths=20000, query_timeout_ms=20000, deadline=None, on_path=
     status: 'ok' | 'violation' | 'inconclusive'
     """
     global ENGINE
+    outer = ENGINE                     # re-entrant: lemma proofs run inside a path of another exploration
     eng = Engine(query_timeout_ms=query_timeout_ms, max_picks=max_picks)
     ENGINE = eng
     stack = []
@@ -319,5 +320,5 @@ def explore(fn, max_paths=20000, query_timeout_ms=20000, deadline=None, on_path=
         res["solver_s"] = eng.tsolve
         res["obligations"] = eng.obligations
         res["branches"] = eng.branches
-        ENGINE = None
+        ENGINE = outer
     return res
